@@ -249,7 +249,7 @@ def run(case):
                 k = 0
                 while True:
                     if case['stop_k'] is not None and rep == 0 and k == case['stop_k']:
-                        it.close()
+                        W.close_iter(it)
                         term = ('stopped',)
                         break
                     out.append(W.norm(next(it)))
